@@ -160,7 +160,11 @@ def execute(sc) -> Result:
     res = Result()
     d = world.new_dir()
     try:
-        run = driver.run_scenario(sc, d)
+        # a third of the cases goes through ladim.main.main(): the real time loop decides how many steps run
+        via_main = int(sc["time"]["nsteps"] * 7 + sc["output"]["period"]) % 3 == 0
+        run = driver.run_scenario(sc, d, use_main=via_main)
+        if via_main:
+            res.probes["via_main"] += 1
         account_run(res, run, sc)
         res.history_key = "|".join(str(x) for x in (
             sc["time"]["nsteps"], sc["output"]["period"], sc["output"].get("numrec", 0),
